@@ -204,12 +204,29 @@ pub fn system_family(tier: Tier, divrem: bool) -> Vec<SysSpec> {
             out.push(sp);
         }
     }
+    let n_hand = out.len();
     for (sp, key) in lists.into_iter().flatten() {
         if seen.insert(key) {
             out.push(sp);
         }
     }
+    out.extend(unnamed_variants(&out, n_hand, 7));
     out
+}
+
+/// copies whose symbols have no entry in the system's name table (see SysSpec::build): every hand-built system
+/// and every `stride`-th of the others
+pub fn unnamed_variants(specs: &[SysSpec], n_first: usize, stride: usize) -> Vec<SysSpec> {
+    specs
+        .iter()
+        .enumerate()
+        .filter(|(i, sp)| (*i < n_first || i % stride == 3) && !sp.name.contains("labelled"))
+        .map(|(_, sp)| {
+            let mut c = sp.clone();
+            c.name = format!("{}-unnamed", sp.name);
+            c
+        })
+        .collect()
 }
 
 /// skeleton (or hand-built shape) a spec was derived from: "K3", "hand:swap"
